@@ -116,6 +116,16 @@ theorem commute_exact (fix7a : Bool) (p : GPat) (l : List GPat) (h : commute fix
       l.head? = some p :=
   commute_counts fix7a p l h
 
+/-- **`commute` keeps every `Constant` pattern intact**: in every variant, node pattern `i` holds
+exactly the `Constant` patterns of node pattern `i` of the original — same value, same `rel_tol`,
+same `abs_tol` (a `ConstPat` is the triple).  So a swapped variant accepts a constant iff the
+pattern as written does. -/
+theorem clone_preserves_constant (fix7a : Bool) (p : GPat) (l : List GPat) (q : GPat)
+    (h : commute fix7a p = .ok l) (hq : q ∈ l) :
+    ∀ (i : Nat) (n n' : NPat), p.nodes[i]? = some n → q.nodes[i]? = some n' →
+      ∀ c : ConstPat, c ∈ n'.consts ↔ c ∈ n.consts :=
+  commute_consts fix7a p l q h hq
+
 /-! ## Refutations of the unrestricted statements (witnesses replayed on the real matcher) -/
 
 def xVar : VPat := .var 1 (some "x") true false none
@@ -128,7 +138,7 @@ def mkNode (op : String) (ins : List (Option VPat)) (nouts : Nat) : NPat :=
 def mkGNode (op : String) (ins : List (Option ValueId)) (outs : List ValueId) : GNode :=
   { domain := "", op := op, overload := "", inputs := ins, attrs := [], outputs := outs }
 
-def closeEq (a b : Int) : Bool := a == b
+def closeEq (_ _ : Tol) (a b : Int) : Bool := a == b
 
 /-- finding C06-D11: `Add(OrValue([Neg(x), x]), x)` against `n = Neg(a); y = Add(n, n)` -/
 def d11 : Env :=
@@ -379,6 +389,18 @@ def addPat : GPat :=
   { inputs := [some "x"], cond := true,
     nodes := [mkNode "Add" [some xVar, some (.var 2 (some "y") true false none)] 1],
     outputs := [.out 0 0] }
+
+def mulConstPat : GPat :=
+  { inputs := [some "x"], cond := true,
+    nodes := [mkNode "Mul" [some xVar, some (.const 2
+      { val := .scalar 1000, relTol := ⟨1, 100000⟩, absTol := ⟨1, 100000000⟩ })] 1],
+    outputs := [.out 0 0] }
+
+/-- `commute` on `Mul(x, Constant(1000))` has a swapped variant that holds the constant
+(so `clone_preserves_constant` is not vacuous) -/
+example : ((commute true mulConstPat).toOption.map (fun l => l.map (fun q => q.nodes.map NPat.consts))) =
+    some [[[{ val := .scalar 1000, relTol := ⟨1, 100000⟩, absTol := ⟨1, 100000000⟩ }]],
+          [[{ val := .scalar 1000, relTol := ⟨1, 100000⟩, absTol := ⟨1, 100000000⟩ }]]] := by decide
 
 /-- `commute` on `Add(x, y)`: two variants (so `commute_exact` is not vacuous). -/
 example : (commute true addPat).toOption.map List.length = some 2 := by decide
